@@ -115,6 +115,18 @@ def run(ctx):
         rows = rows_of(code)
         add('code_validity', '(code_valid_on %s %s %s && injective_on %s %s)' % (cNl(rows), '(' + clist([cpoly(d) for d in code.decoder]) + ' : list bpoly)', cNl(dom), cNl(rows), cNl(dom)),
             {'call': name, 'n_modes': code.n_modes, 'n_qubits': code.n_qubits, 'domain_size': len(dom)}, key=name)
+    # ---- built-in codes on many modes (tree links beyond the first levels): unit vectors, all-ones, random vectors
+    big_ns = sorted(set([11, 12, 15, 16, 17, 20, 24, 31, 32, 33, 40] if ctx.quick else list(range(11, 66))))
+    for n in big_ns:
+        vecs = sorted(set([1 << k for k in range(n)] + [(1 << n) - 1] + [rng.getrandbits(n) for _ in range(N(12, 40))]))
+        cands = [('jordan_wigner_code(%d)' % n, bc.jordan_wigner_code(n), vecs), ('bravyi_kitaev_code(%d)' % n, bc.bravyi_kitaev_code(n), vecs), ('parity_code(%d)' % n, bc.parity_code(n), vecs)]
+        for odd in (0, 1): cands.append(('checksum_code(%d,%d)' % (n, odd), bc.checksum_code(n, odd), [v for v in vecs if weight(v) % 2 == odd]))
+        if n % 2 == 0: cands.append(('interleaved_code(%d)' % n, bc.interleaved_code(n), vecs))
+        for name, code, dom in cands:
+            if not dom: continue
+            rows = rows_of(code)
+            add('code_validity_large', '(code_valid_on %s %s %s && injective_on %s %s)' % (cNl(rows), '(' + clist([cpoly(d) for d in code.decoder]) + ' : list bpoly)', cNl(dom), cNl(rows), cNl(dom)),
+                {'call': name, 'n_modes': code.n_modes, 'n_qubits': code.n_qubits, 'domain_sample': len(dom)}, key=name)
     # ---- binary_code_transform acts on encoded states as the operator acts on occupation states
     for name, code, dom in exprs:
         if code.n_modes > 6 or code.n_qubits > 8 or len(dom) > 64: continue
@@ -144,6 +156,18 @@ def run(ctx):
         c = binary_code_transform(fop, bc.bravyi_kitaev_code(nm)); d = of.bravyi_kitaev(fop, n_qubits=nm)
         if not all(exact_terms_ok(x.terms, lo=30) for x in (a, b, c, d)): continue
         add('reproduces_jw_bk', '(dict_eqb pfactor pfeqb %s %s && dict_eqb pfactor pfeqb %s %s)' % (coq_qop(a), coq_qop(b), coq_qop(c), coq_qop(d)),
+            {'call': 'binary_code_transform vs jordan_wigner / bravyi_kitaev', 'n_modes': nm, 'terms': {repr(t): repr(c_) for t, c_ in fop.terms.items()}}, key=(nm, repr(fop.terms)))
+    for _ in range(N(30, 200)):
+        nm = rng.choice([9, 12, 15, 16, 17, 20, 31, 32, 33]) if ctx.quick else rng.randint(8, 48)
+        terms = {}
+        for _ in range(rng.randint(1, 2)):
+            idx = [rng.choice([0, 1, nm - 1, nm - 2, rng.randrange(nm), rng.randrange(nm)]) for _ in range(rng.randint(1, 2))]
+            terms[tuple((i, rng.randint(0, 1)) for i in idx)] = dyc(rng)
+        fop = mk_fermion(of, terms)
+        a = binary_code_transform(fop, bc.jordan_wigner_code(nm)); b = of.jordan_wigner(fop)
+        c = binary_code_transform(fop, bc.bravyi_kitaev_code(nm)); d = of.bravyi_kitaev(fop, n_qubits=nm)
+        if not all(exact_terms_ok(x.terms, lo=30) for x in (a, b, c, d)): continue
+        add('reproduces_jw_bk_large', '(dict_eqb pfactor pfeqb %s %s && dict_eqb pfactor pfeqb %s %s)' % (coq_qop(a), coq_qop(b), coq_qop(c), coq_qop(d)),
             {'call': 'binary_code_transform vs jordan_wigner / bravyi_kitaev', 'n_modes': nm, 'terms': {repr(t): repr(c_) for t, c_ in fop.terms.items()}}, key=(nm, repr(fop.terms)))
     res = coq_eval_bools(ctx, 'c09', IMPORTS, items, chunk=40)
     judge(ctx, res, meta, 'C09')
